@@ -46,14 +46,14 @@ Requests ==
            THEN {[R("apply_put") EXCEPT !.k = k, !.v = v] : k \in StoreKeys, v \in StoreVals}
                 \cup {[R("apply_del") EXCEPT !.k = k] : k \in StoreKeys}
                 \cup {[R("apply_batch") EXCEPT !.ops = b] : b \in ValidBatches \ {<<>>}}
-                \cup {[R("setro") EXCEPT !.ro = b] : b \in BOOLEAN}
+                \cup {[R("setro") EXCEPT !.ro = b] : b \in BOOLEAN} \cup {R("stoprepl")}
            ELSE {})
 
 Next == \E rq \in Requests : Do(rq)
 Spec == Init /\ [][Next]_vars
 
 \* the reply register is an observation: states are identified by the embedded state alone
-StateView == evars
+StateView == <<evars, repl>>
 
 ScanSound == ScanAll => \A so \in ScanOpts : ScanOK(db, so, ScanKeys(db, so))
 \* C16: whatever the mode and whoever holds the lock, the applier gets in and reads are served
@@ -63,5 +63,6 @@ ApplyAndReadsAlwaysEnabled ==
   /\ \A k \in StoreKeys, via \in Vias : ENABLED Do([Rq0 EXCEPT !.op = "get", !.via = via, !.k = k])
   /\ ENABLED Do([Rq0 EXCEPT !.op = "nodeinfo"])
 RefinesEmbedded == [][EmbeddedStep(ValidBatches)]_evars
-Inv == TypeOK /\ Mutex /\ NoWriterOnReplica /\ TableOK /\ ScanSound /\ ApplyAndReadsAlwaysEnabled
+ReplOK == repl \in {"running", "stopped", "none"} /\ (repl = "none" <=> Role = "standalone")
+Inv == ReplOK /\ TypeOK /\ Mutex /\ NoWriterOnReplica /\ TableOK /\ ScanSound /\ ApplyAndReadsAlwaysEnabled
 =============================================================================
